@@ -28,7 +28,7 @@ def run(tier, replay):
             raise vlib.Inconclusive("TLC Auth: %s %s" % (r.violated, (r.error or "")[-1500:]))
         cfg2 = cfg.replace("MaxLines = 2", "MaxLines = %d" % maxlines).replace("SPECIFICATION Spec", "INIT Init\nNEXT UNCHANGED_vars")
         # second run only to enumerate the larger case set (ASSUMEs are evaluated at start-up); no behaviours explored
-        mc3 = "---- MODULE GAuth3 ----\nEXTENDS AuthCases\nUNCHANGED_vars == UNCHANGED vars\nInit0 == file = [u \\in {\"alice\", \"bob\"} |-> <<>>] /\\ hist = <<>>\n====\n"
+        mc3 = "---- MODULE GAuth3 ----\nEXTENDS AuthCases\nUNCHANGED_vars == UNCHANGED vars\nInit0 == file = [u \\in {\"alice\", \"bob\"} |-> <<>>] /\\ hist = <<>> /\\ rewrites = 0\n====\n"
         cfg3 = "INIT Init0\nNEXT UNCHANGED_vars\nCONSTANTS\n MaxLines = %d\n KF_TrailingNonKeyLines = %s\n" % (maxlines, "TRUE" if kf_open else "FALSE")
         r3 = vlib.tlc(wd, "GAuth3", "GAuth3.cfg", files={"GAuth3.tla": mc3, "GAuth3.cfg": cfg3}, timeout=3000)
         if not r3.ok:
@@ -67,6 +67,10 @@ def run(tier, replay):
         for b in pres["bad"] or []:
             V.violation("password callback: user=%s pw=%s addr=%s granted=%s, Ref=%s" %
                         (b["case"]["user"], b["case"]["pw"], b["case"]["addr"], b["granted"], b["case"]["ref"]), b)
+        for b in pres.get("bad2") or []:
+            V.violation("password callback after an earlier login (user=%s pw=%s addr=%s): user=%s pw=%s addr=%s granted=%s, Ref=%s" %
+                        (b["first"]["user"], b["first"]["pw"], b["first"]["addr"], b["case"]["user"], b["case"]["pw"], b["case"]["addr"],
+                         b["granted"], b["case"]["ref"]), b)
         ho = os.path.join(wd, "ho.json")
         ov3 = {"internal/server/handlers/vcommon_test.go": ("common/vcommon_test.go", "handlers"),
                "internal/server/handlers/c09_health_test.go": "handlers/c09_health_test.go"}
